@@ -14,16 +14,16 @@ Conformance: harness/ini.cc runs read_config / write_config / read_config on exa
 and prefix are taken from TLC's own output, the counts are compared with TLC's distinct states), on longer texts
 composed from syntax fragments, and on the documented configurations TLC printed, built through the public API.  Every
 call sequence is one event validated by TLC against IniTrace.tla."""
-import json, os
+import json, os, time
 import vf
 
 # (name, alphabet, prefix, maxlen): definitions of Ini.tla
 SPACES = {
-    "quick":    [("text", "Alpha12", "PrefixNone", 4), ("value", "Alpha12", "PrefixValue", 3), ("tuple", "Alpha8", "PrefixTuple", 4)],
+    "quick":    [("text", "Alpha9", "PrefixNone", 4), ("value", "Alpha12", "PrefixValue", 3), ("tuple", "Alpha8", "PrefixTuple", 4)],
     "thorough": [("text", "Alpha12", "PrefixNone", 5), ("value", "Alpha14", "PrefixValue", 4), ("value12", "Alpha12", "PrefixValue", 5),
                  ("tuple", "Alpha8", "PrefixTuple", 6)],
 }
-NRANDOM = {"quick": 3000, "thorough": 40000}
+NRANDOM = {"quick": 2000, "thorough": 40000}
 CONFIGS = {"quick": ("ValAlpha2", 2), "thorough": ("ValAlpha", 2)}
 
 # syntax fragments the longer texts are composed of (documented syntax, escapes, comments, continuation lines, junk)
@@ -59,7 +59,10 @@ def _read_events(path, r, what):
     evs, tail = [], ""
     for ln in open(path, errors="replace"):
         if ln.endswith("}\n"):
-            evs.append(json.loads(ln))
+            try:
+                evs.append(json.loads(ln))
+            except ValueError:
+                vf.infra("harness ini (%s) wrote an unparsable line: %r" % (what, ln[:200]))
         else:
             tail = ln
     if tail.strip():
@@ -159,6 +162,7 @@ def _case_of(ev):
 def _validate(c, per_shard, bad):
     """Check.validate's bookkeeping for one round, except that rejected events are collected in `bad` and reported at
     the end by _report."""
+    t0 = time.time()
     results = vf.pmap(lambda evs: vf.tlc_validate("IniTrace.tla", "IniTrace.cfg", evs, timeout=6000 if c.thorough else 1500) if evs else None, per_shard)
     listed = {k["id"]: k for k in c.known if k.get("status") == "known"}
     for evs, r in zip(per_shard, results):
@@ -172,6 +176,7 @@ def _validate(c, per_shard, bad):
                 bad.append(("finding %s which is not listed as known" % kid, ev))
         for (i, ev, v) in r["bad"]:
             bad.append((v, ev))
+    c.cov["stages_s"]["validate"] = round(c.cov["stages_s"].get("validate", 0) + time.time() - t0, 1)
 
 
 def _report(c, bad):
@@ -195,6 +200,8 @@ def main():
     vf.build("hooks")
     h = vf.build_harness("hooks", "ini")
 
+    c.cov["stages_s"] = {}
+    t0 = time.time()
     # ---- the model: the specification alone; then specification and pinned transcription side by side per explored space
     c.model("Ini.tla", os.path.join(vf.SPEC, "Ini.cfg"), extra=NOTE)
     spaces, sizes = [], {}
@@ -213,6 +220,7 @@ def main():
     rp = c.model("Ini.tla", os.path.join(vf.SPEC, "IniPinned.cfg"), must_hold=False, extra=NOTE)
     c.cov["pinned_transcription_satisfies_properties"] = rp["ok"]
 
+    c.cov["stages_s"]["model"] = round(time.time() - t0, 1)
     # ---- conformance, round by round: run, bind the explored space, let TLC judge, keep what was rejected
     bad, seen, nontrivial, nev, samples = [], {}, 0, 0, []
     for name, per_shard in _rounds(c, "hooks", spaces, NRANDOM[c.tier]):
@@ -244,6 +252,7 @@ def main():
     c.cov["evaluations"] = nev + npp
     c.cov["distinct_nontrivial"] = nontrivial + npp
     _report(c, bad)
+    c.cov["stages_s"]["harness_and_driver"] = round(time.time() - t0 - c.cov["stages_s"]["model"] - c.cov["stages_s"].get("validate", 0), 1)
     c.cov["rule"] = ("every text prefix.w: " + "; ".join("%s = %s . (<= %d tokens over %d) = %d texts" % (n, "".join(p) or "''", m, len(a), sizes[n]) for (n, a, p, m) in spaces)
                      + " (enumerated by the harness, = the model's states), each read, and read-written-read; %d longer texts composed from syntax fragments; "
                        "%d documented configurations printed by TLC, built through the API, written and read; non-trivial = the first read yields at least one section, "
